@@ -65,7 +65,10 @@ def run(env: Any, case: dict[str, Any]) -> Any:
 def key_fn(case: dict[str, Any], label: str, item: dict[str, Any], conc: dict[str, Any]) -> str:
     # where the special word sits in its paragraph matters: the first word of a paragraph is never
     # escaped (it was at a line start in the source too), inner words can be pushed to a line start
-    return f"{DOCS.special_key(case)}/{label}"
+    cls = DOCS.finding_class(case)
+    if cls == "first-word-alone":
+        label = "shape"  # whichever block the lone word turns into
+    return f"{cls}/{label}"
 
 
 def what_fn(case: dict[str, Any], label: str, item: dict[str, Any], conc: dict[str, Any]) -> str:
